@@ -23,7 +23,10 @@ import (
 )
 
 func c18Name() *rapid.Generator[string] {
-	comp := rapid.StringMatching(`[a-c]{1,2}`)
+	// components: short letter names; now and then an ordinary component that contains dots, dashes, a
+	// percent sign, a space or a tilde (none of them is "." or ".." or contains a slash)
+	comp := rapid.OneOf(rapid.StringMatching(`[a-c]{1,2}`), rapid.StringMatching(`[a-c]{1,2}`), rapid.StringMatching(`[a-c]{1,2}`),
+		rapid.SampledFrom([]string{"a..b", "..a", "a..", "a.b", "...", "a-b", "a%2fb", "a b", "~a", "a.", ".a", "2024-01-01"}))
 	return rapid.Custom(func(t *rapid.T) string {
 		depth := rapid.IntRange(1, 3).Draw(t, "depth")
 		var parts []string
